@@ -111,6 +111,13 @@ def parseT10 (bs : List UInt8) : Res Msg := do
     [(.message_type, .nat message_type), (.repeat_indicator, .nat repeat_indicator), (.mmsi, .nat mmsi),
      (.dest_mmsi, .nat dest_mmsi)]⟩
 
+/-- `match cs_selector { 0 => SotdmaMessage::parse(data)?, 1 => ItdmaMessage::parse(data)?, _ => unreachable!() }` -/
+def selectRadio (sel : Nat) (c : Cur) : Res (List (Key × Val) × Cur) :=
+  match sel with
+  | 0 => parseSotdma c
+  | 1 => parseItdma c
+  | _ => panic .unreachable
+
 /-- `standard_class_b_position_report.rs` (type 18) -/
 def parseT18 (bs : List UInt8) : Res Msg := do
   let c : Cur := ⟨bs, 0⟩
@@ -142,10 +149,7 @@ def parseT18 (bs : List UInt8) : Res Msg := do
   let (raimBit, c) ← take 8 1 c
   let raim ← u8ToBool raimBit
   let (sel, c) ← take 8 1 c
-  let (radio, _) ← (match sel with
-    | 0 => parseSotdma c
-    | 1 => parseItdma c
-    | _ => panic .unreachable)
+  let (radio, _) ← selectRadio sel c
   ok ⟨.StandardClassBPositionReport,
     [(.message_type, .nat message_type), (.repeat_indicator, .nat repeat_indicator), (.mmsi, .nat mmsi),
      (.speed_over_ground, parseSpeedOverGround sog), (.position_accuracy, accuracy),
